@@ -3,7 +3,10 @@
    Under the executable well-formedness predicate [doc_wf_b] the handler never panics and its
    answer decodes to the image of an order-preserving subsequence of the document's tokens:
    strictly increasing positions, pairwise disjoint byte ranges, every decoded token coincides
-   with one lexical token, keywords / numbers / comments carry their lexical class.
+   with one lexical token, keywords / numbers / comments carry their lexical class, and every
+   keyword / number / comment inside a declaration or in the trailing slice is reported (for the
+   documents of AnalyzedSource::new that is every token of the document: declarations and trailing
+   slice tile the token vector).
    The token half of [doc_wf_b] is proved for every output of [lex] (from C06's tiling), the
    ordering half of the tree part for every output of [parse] (from ParserSync.parse_sync). *)
 From Coq Require Import Sorting.Sorted PeanoNat.
@@ -206,6 +209,12 @@ Proof.
   - now constructor.
 Qed.
 
+Lemma Subseq_firstn {A} (l : list A) : forall n, Subseq (firstn n l) l.
+Proof.
+  induction l as [|x l IH]; intros n; [rewrite firstn_nil; constructor|].
+  destruct n as [|n]; cbn [firstn]; constructor. apply IH.
+Qed.
+
 Lemma Subseq_nil_inv {A} (a : list A) : Subseq a [] -> a = [].
 Proof. inversion 1; reflexivity. Qed.
 
@@ -357,19 +366,19 @@ Qed.
 
 Local Open Scope nat_scope.
 
-Fixpoint DeclsWf (toks : list token) (lo : nat) (l : list (gdecl * nat)) : Prop :=
+Fixpoint DeclsWf (toks : list token) (lo : nat) (l : list (gdecl * nat)) (hi : nat) : Prop :=
   match l with
-  | [] => True
+  | [] => lo <= hi
   | (g, off) :: r =>
       let inf := gdecl_info g in
       lo <= off + i_s inf /\ i_s inf <= i_e inf /\ off + i_e inf <= length toks /\
       name_is_ident toks off (gdecl_name g) = true /\
-      DeclsWf toks (off + i_e inf) r
+      DeclsWf toks (off + i_e inf) r hi
   end.
 
-Lemma decls_wf_prop toks : forall l lo, decls_wf_b toks lo l = true -> DeclsWf toks lo l.
+Lemma decls_wf_prop toks hi : forall l lo, decls_wf_b toks lo l hi = true -> DeclsWf toks lo l hi.
 Proof.
-  induction l as [|[g off] r IH]; intros lo H; cbn [decls_wf_b DeclsWf] in *; [exact I|].
+  induction l as [|[g off] r IH]; intros lo H; cbn [decls_wf_b DeclsWf] in *; [now apply Nat.leb_le|].
   rewrite !andb_true_iff, !Nat.leb_le in H. destruct H as ((((H1 & H2) & H3) & H4) & H5).
   repeat split; try assumption. now apply IH.
 Qed.
@@ -383,9 +392,12 @@ Qed.
 
 Definition seg (toks : list token) (a b : nat) : list token := firstn (b - a) (skipn a toks).
 
+(* the token slice of a declaration *)
+Definition decl_seg (d : doc) (g : gdecl) (off : nat) : list token :=
+  seg (d_toks d) (off + i_s (gdecl_info g)) (off + i_e (gdecl_info g)).
+
 Definition visited_decl (d : doc) (g : gdecl) (off : nat) : list tagged :=
-  let inf := gdecl_info g in
-  tag (decl_class g (d_table d)) (i_s inf) (seg (d_toks d) (off + i_s inf) (off + i_e inf)).
+  tag (decl_class g (d_table d) (decl_seg d g off)) (i_s (gdecl_info g)) (decl_seg d g off).
 
 Fixpoint visited (d : doc) (l : list (gdecl * nat)) : list tagged :=
   match l with
@@ -397,7 +409,7 @@ Lemma collect_decl_emit d g off prev :
   i_s (gdecl_info g) <= i_e (gdecl_info g) -> off + i_e (gdecl_info g) <= length (d_toks d) ->
   collect_decl d g off prev = emit (d_text d) (visited_decl d g off) prev.
 Proof.
-  intros H1 H2. unfold collect_decl, visited_decl, slice_from, slice, info_range, seg. cbn [fst snd].
+  intros H1 H2. unfold collect_decl, visited_decl, decl_seg, slice_from, slice, info_range, seg. cbn [fst snd].
   replace (Nat.ltb (length (d_toks d)) off) with false by (symmetry; apply Nat.ltb_ge; lia).
   cbn [lift sbind].
   replace (Nat.ltb (i_e (gdecl_info g)) (i_s (gdecl_info g))) with false by (symmetry; apply Nat.ltb_ge; lia).
@@ -409,10 +421,9 @@ Proof.
   reflexivity.
 Qed.
 
-Lemma collect_decls_emit d : forall l lo prev,
-  DeclsWf (d_toks d) lo l ->
-  collect_decls d l prev =
-  match emit (d_text d) (visited d l) prev with SOk r => SOk (fst r) | SFail s => SFail s end.
+Lemma collect_decls_emit d hi : forall l lo prev,
+  DeclsWf (d_toks d) lo l hi ->
+  collect_decls d l prev = emit (d_text d) (visited d l) prev.
 Proof.
   induction l as [|[g off] r IH]; intros lo prev H; cbn [collect_decls visited emit]; [reflexivity|].
   cbn [DeclsWf] in H. destruct H as (_ & H2 & H3 & _ & H5).
@@ -422,24 +433,49 @@ Proof.
   destruct (emit (d_text d) (visited d r) p1) as [[d2 p2]|]; reflexivity.
 Qed.
 
+(* the trailing slice: the tokens from min(end of the program's range, number of tokens) on *)
+Definition visited_trailing (d : doc) : list tagged :=
+  tag class_error (trailing_start d) (seg (d_toks d) (trailing_start d) (length (d_toks d))).
+
+Definition visited_all (d : doc) : list tagged := visited d (pg_decls (d_ast d)) ++ visited_trailing d.
+
+Lemma trailing_start_le d : trailing_start d <= length (d_toks d).
+Proof. apply Nat.le_min_r. Qed.
+
+Lemma collect_trailing_emit d prev :
+  collect_trailing d prev = emit (d_text d) (visited_trailing d) prev.
+Proof.
+  unfold collect_trailing, visited_trailing, slice, seg. cbn [fst snd].
+  pose proof (trailing_start_le d) as Hle.
+  replace (Nat.ltb (length (d_toks d)) (trailing_start d)) with false by (symmetry; apply Nat.ltb_ge; lia).
+  rewrite Nat.ltb_irrefl. cbn [lift sbind]. apply collect_emit.
+Qed.
+
 Lemma skipn_split {A} (l : list A) a b : a <= b -> skipn a l = firstn (b - a) (skipn a l) ++ skipn b l.
 Proof.
   intros H. rewrite <- (firstn_skipn (b - a) (skipn a l)) at 1. f_equal.
   rewrite skipn_skipn. f_equal. lia.
 Qed.
 
-Lemma visited_subseq d : forall l lo,
-  DeclsWf (d_toks d) lo l -> Subseq (map fst (visited d l)) (skipn lo (d_toks d)).
+Lemma visited_subseq d hi : forall l lo,
+  DeclsWf (d_toks d) lo l hi -> lo <= length (d_toks d) ->
+  Subseq (map fst (visited d l) ++ seg (d_toks d) (Nat.min hi (length (d_toks d))) (length (d_toks d)))
+         (skipn lo (d_toks d)).
 Proof.
-  induction l as [|[g off] r IH]; intros lo H; cbn [visited map]; [constructor|].
-  cbn [DeclsWf] in H. destruct H as (H1 & H2 & H3 & _ & H5).
-  rewrite map_app. unfold visited_decl. rewrite tag_fst. unfold seg.
-  rewrite (skipn_split (d_toks d) lo (off + i_s (gdecl_info g))) by lia.
-  apply Subseq_prefix.
-  remember (firstn (off + i_e (gdecl_info g) - (off + i_s (gdecl_info g))) (skipn (off + i_s (gdecl_info g)) (d_toks d))) as S eqn:ES.
-  rewrite (skipn_split (d_toks d) (off + i_s (gdecl_info g)) (off + i_e (gdecl_info g))) by lia.
-  rewrite <- ES.
-  apply Subseq_app; [apply Subseq_refl | now apply IH].
+  induction l as [|[g off] r IH]; intros lo H Hlo; cbn [visited map app].
+  - cbn [DeclsWf] in H.
+    assert (Ha : lo <= Nat.min hi (length (d_toks d))) by (apply Nat.min_glb; assumption).
+    unfold seg. remember (skipn (Nat.min hi (length (d_toks d))) (d_toks d)) as T eqn:ET.
+    rewrite (skipn_split (d_toks d) lo (Nat.min hi (length (d_toks d)))) by exact Ha.
+    rewrite <- ET. apply Subseq_prefix, Subseq_firstn.
+  - cbn [DeclsWf] in H. destruct H as (H1 & H2 & H3 & _ & H5).
+    rewrite map_app, <- app_assoc. unfold visited_decl. rewrite tag_fst. unfold decl_seg, seg at 1.
+    rewrite (skipn_split (d_toks d) lo (off + i_s (gdecl_info g))) by lia.
+    apply Subseq_prefix.
+    remember (firstn (off + i_e (gdecl_info g) - (off + i_s (gdecl_info g))) (skipn (off + i_s (gdecl_info g)) (d_toks d))) as S eqn:ES.
+    rewrite (skipn_split (d_toks d) (off + i_s (gdecl_info g)) (off + i_e (gdecl_info g))) by lia.
+    rewrite <- ES.
+    apply Subseq_app; [apply Subseq_refl | now apply IH].
 Qed.
 
 (* ------------------------------------------------------------------------------------------ *)
@@ -448,7 +484,7 @@ Qed.
 Local Open Scope N_scope.
 
 (* the reported tokens with their classes, in the order of the answer *)
-Definition emitted (d : doc) : list (token * (N * N)) := classified (visited d (pg_decls (d_ast d))).
+Definition emitted (d : doc) : list (token * (N * N)) := classified (visited_all d).
 
 Lemma sorted_from_of_before t : forall (l : list tagged) b,
   StronglySorted (Before t) (map fst l) -> Forall (fun e : tagged => b <= ts (fst e)) l -> SortedFrom b l.
@@ -487,13 +523,16 @@ Local Notation t := (d_text d).
 Local Notation toks := (d_toks d).
 Local Notation decls := (pg_decls (d_ast d)).
 
-Lemma wf_decls : DeclsWf toks 0 decls.
+Lemma wf_decls : DeclsWf toks 0 decls (i_e (pg_info (d_ast d))).
 Proof. unfold doc_wf_b in Hwf. apply andb_true_iff in Hwf as [_ H]. now apply decls_wf_prop. Qed.
 
-Lemma visited_sub : Subseq (map fst (visited d decls)) toks.
-Proof. exact (visited_subseq d decls 0 wf_decls). Qed.
+Lemma visited_sub : Subseq (map fst (visited_all d)) toks.
+Proof.
+  unfold visited_all, visited_trailing. rewrite map_app, tag_fst.
+  exact (visited_subseq d _ decls 0 wf_decls (Nat.le_0_l _)).
+Qed.
 
-Lemma visited_sorted : StronglySorted (Before t) (map fst (visited d decls)).
+Lemma visited_sorted : StronglySorted (Before t) (map fst (visited_all d)).
 Proof. exact (Subseq_sorted _ _ _ visited_sub (chain_sorted t toks 0 (doc_wf_chain d Hwf))). Qed.
 
 Lemma emitted_sub : Subseq (map fst (emitted d)) toks.
@@ -506,14 +545,18 @@ Proof. exact (Subseq_sorted _ _ _ (classified_subseq _) visited_sorted). Qed.
 Lemma semtok_answer :
   exists data, semantic_tokens d = SOk data /\ decode data = map (tok_view t) (emitted d).
 Proof.
-  unfold semantic_tokens. rewrite (collect_decls_emit d decls 0 (0, 0) wf_decls).
-  destruct (emit_ok t (visited d decls) 0 (0, 0)) as (data & p' & He & Hd).
+  unfold semantic_tokens. rewrite (collect_decls_emit d _ decls 0 (0, 0) wf_decls).
+  destruct (emit_ok t (visited_all d) 0 (0, 0)) as (data & p' & He & Hd).
   - now rewrite as_position_0.
   - apply (sorted_from_of_before t); [exact visited_sorted|].
     apply Forall_forall. intros; lia.
   - pose proof (Subseq_Forall _ _ _ visited_sub (chain_sliced t toks 0 (doc_wf_chain d Hwf))) as HF.
     rewrite Forall_map in HF. exact HF.
-  - exists data. rewrite He. split; [reflexivity | exact Hd].
+  - exists data. unfold visited_all in He. rewrite emit_app in He.
+    destruct (emit t (visited d decls) (0, 0)) as [[d1 p1]|]; cbn [sbind fst snd] in *; [|discriminate].
+    rewrite collect_trailing_emit.
+    destruct (emit t (visited_trailing d) p1) as [[d2 p2]|]; cbn [sbind fst snd] in *; [|discriminate].
+    injection He as <- _. split; [reflexivity | exact Hd].
 Qed.
 
 End Wf.
@@ -607,10 +650,10 @@ Proof.
   now rewrite Hk in H1.
 Qed.
 
-Lemma decl_class_lex_ok toks table g off idx k c :
+Lemma decl_class_lex_ok toks table sl g off idx k c :
   name_is_ident toks off (gdecl_name g) = true ->
   nth_error toks (off + idx) = Some k ->
-  decl_class g table idx k = Some c -> lex_ok (k, c).
+  decl_class g table sl idx k = Some c -> lex_ok (k, c).
 Proof.
   intros Hn Hk Hc. unfold lex_ok; cbn [fst snd].
   destruct g as [td | pd | inf]; cbn [decl_class gdecl_name] in *.
@@ -621,7 +664,7 @@ Proof.
     + pose proof (map_class_some_not_ident _ _ Em) as Hi.
       destruct (tk k); cbn [is_ident] in Hi; try discriminate; congruence.
     + destruct (tk k); cbn [is_ident]; try reflexivity; congruence.
-  - unfold class_proc_dec in Hc.
+  - unfold class_proc_dec in Hc. cbv zeta in Hc.
     destruct (opt_name_token (pd_name pd) idx) eqn:En.
     { pose proof (name_token_ident _ _ _ _ _ Hn En Hk) as Hi. now rewrite (map_class_ident _ Hi). }
     destruct (map_class (tk k)) as [c'|] eqn:Em.
@@ -631,21 +674,29 @@ Proof.
   - unfold class_error in Hc. now rewrite Hc.
 Qed.
 
-Lemma visited_lex_ok d : forall l lo, DeclsWf (d_toks d) lo l -> Forall lex_ok (classified (visited d l)).
+Lemma visited_lex_ok d hi : forall l lo, DeclsWf (d_toks d) lo l hi -> Forall lex_ok (classified (visited d l)).
 Proof.
   induction l as [|[g off] r IH]; intros lo H; cbn [visited classified]; [constructor|].
   cbn [DeclsWf] in H. destruct H as (_ & H2 & H3 & H4 & H5).
   rewrite classified_app. apply Forall_app. split; [|now apply (IH _ H5)].
   unfold visited_decl. apply tag_forall. intros j k c Hj Hc.
-  unfold seg in Hj. apply nth_error_firstn_some in Hj. rewrite nth_error_skipn in Hj.
-  apply (decl_class_lex_ok (d_toks d) (d_table d) g off (i_s (gdecl_info g) + j) k c H4); [|exact Hc].
+  unfold decl_seg, seg in Hj. apply nth_error_firstn_some in Hj. rewrite nth_error_skipn in Hj.
+  apply (decl_class_lex_ok (d_toks d) (d_table d) (decl_seg d g off) g off (i_s (gdecl_info g) + j) k c H4); [|exact Hc].
   now rewrite Nat.add_assoc.
+Qed.
+
+Lemma trailing_lex_ok d : Forall lex_ok (classified (visited_trailing d)).
+Proof.
+  unfold visited_trailing. apply tag_forall. intros j k c _ Hc.
+  unfold lex_ok, class_error in *; cbn [fst snd]. now rewrite Hc.
 Qed.
 
 Theorem semtok_lexical_class d : doc_wf_b d = true -> Forall lex_ok (emitted d).
 Proof.
   intros H. unfold doc_wf_b in H. apply andb_true_iff in H as [_ H].
-  exact (visited_lex_ok d _ 0 (decls_wf_prop _ _ _ H)).
+  unfold emitted, visited_all. rewrite classified_app. apply Forall_app. split.
+  - exact (visited_lex_ok d _ _ 0 (decls_wf_prop _ _ _ _ H)).
+  - apply trailing_lex_ok.
 Qed.
 
 (* ... and every keyword / number / comment inside a declaration IS reported *)
@@ -665,42 +716,64 @@ Proof.
   destruct n as [|n]; [lia|]. destruct j as [|j]; [reflexivity|]. cbn. apply IH. lia.
 Qed.
 
-Lemma decl_class_complete toks table g off idx k c :
+Lemma decl_class_complete toks table sl g off idx k c :
   name_is_ident toks off (gdecl_name g) = true ->
   nth_error toks (off + idx) = Some k ->
-  map_class (tk k) = Some c -> decl_class g table idx k = Some c.
+  map_class (tk k) = Some c -> decl_class g table sl idx k = Some c.
 Proof.
   intros Hn Hk Hc. pose proof (map_class_some_not_ident _ _ Hc) as Hi.
   destruct g as [td | pd | inf]; cbn [decl_class gdecl_name] in *.
   - unfold class_type_dec. destruct (opt_name_token (td_name td) idx) eqn:En.
     { rewrite (name_token_ident _ _ _ _ _ Hn En Hk) in Hi. discriminate. }
     destruct (tk k); cbn [is_ident] in Hi; try discriminate; exact Hc.
-  - unfold class_proc_dec. destruct (opt_name_token (pd_name pd) idx) eqn:En.
+  - unfold class_proc_dec. cbv zeta. destruct (opt_name_token (pd_name pd) idx) eqn:En.
     { rewrite (name_token_ident _ _ _ _ _ Hn En Hk) in Hi. discriminate. }
     destruct (tk k); cbn [is_ident] in Hi; try discriminate; exact Hc.
   - exact Hc.
 Qed.
 
-Theorem semtok_lexical_complete d i g off j k c :
-  doc_wf_b d = true ->
-  nth_error (pg_decls (d_ast d)) i = Some (g, off) ->
+Lemma visited_complete d hi i g off j k c : forall l lo,
+  DeclsWf (d_toks d) lo l hi ->
+  nth_error l i = Some (g, off) ->
   off + i_s (gdecl_info g) <= j < off + i_e (gdecl_info g) ->
   nth_error (d_toks d) j = Some k -> map_class (tk k) = Some c ->
-  In (k, c) (emitted d).
+  In (k, c) (classified (visited d l)).
 Proof.
-  intros H. unfold doc_wf_b in H. apply andb_true_iff in H as [_ H].
-  apply decls_wf_prop in H. unfold emitted. revert i H. generalize 0.
-  induction (pg_decls (d_ast d)) as [|[g' off'] r IH]; intros lo i H Hi Hj Hk Hc; [now destruct i|].
+  intros l. revert i.
+  induction l as [|[g' off'] r IH]; intros i lo H Hi Hj Hk Hc; [now destruct i|].
   cbn [DeclsWf] in H. destruct H as (_ & H2 & H3 & H4 & H5).
   cbn [visited]. rewrite classified_app. apply in_or_app.
   destruct i as [|i].
   - left. cbn in Hi. injection Hi as -> ->. unfold visited_decl.
     apply (tag_complete _ _ _ (j - (off + i_s (gdecl_info g)))).
-    + unfold seg. rewrite nth_error_firstn_lt by lia. rewrite nth_error_skipn.
+    + unfold decl_seg, seg. rewrite nth_error_firstn_lt by lia. rewrite nth_error_skipn.
       replace (off + i_s (gdecl_info g) + (j - (off + i_s (gdecl_info g)))) with j by lia. exact Hk.
-    + apply (decl_class_complete (d_toks d) (d_table d) g off); [exact H4 | | exact Hc].
+    + apply (decl_class_complete (d_toks d) (d_table d) (decl_seg d g off) g off); [exact H4 | | exact Hc].
       replace (off + (i_s (gdecl_info g) + (j - (off + i_s (gdecl_info g))))) with j by lia. exact Hk.
-  - right. cbn in Hi. exact (IH _ i H5 Hi Hj Hk Hc).
+  - right. cbn in Hi. exact (IH i _ H5 Hi Hj Hk Hc).
+Qed.
+
+(* the token indices the handler walks over: the token ranges of the declarations and the trailing
+   slice *)
+Definition covered (d : doc) (j : nat) : Prop :=
+  (exists i g off, nth_error (pg_decls (d_ast d)) i = Some (g, off) /\
+                   off + i_s (gdecl_info g) <= j < off + i_e (gdecl_info g))
+  \/ trailing_start d <= j.
+
+Theorem semtok_lexical_complete d j k c :
+  doc_wf_b d = true -> covered d j ->
+  nth_error (d_toks d) j = Some k -> map_class (tk k) = Some c ->
+  In (k, c) (emitted d).
+Proof.
+  intros H Hcov Hk Hc. unfold doc_wf_b in H. apply andb_true_iff in H as [_ H].
+  apply decls_wf_prop in H. unfold emitted, visited_all. rewrite classified_app. apply in_or_app.
+  destruct Hcov as [(i & g & off & Hi & Hj) | Hj].
+  - left. exact (visited_complete d _ i g off j k c _ 0 H Hi Hj Hk Hc).
+  - right. unfold visited_trailing.
+    assert (Hlt : j < length (d_toks d)) by (apply nth_error_Some; congruence).
+    apply (tag_complete _ _ _ (j - trailing_start d)); [|exact Hc].
+    unfold seg. rewrite nth_error_firstn_lt by lia. rewrite nth_error_skipn.
+    replace (trailing_start d + (j - trailing_start d)) with j by lia. exact Hk.
 Qed.
 
 (* ------------------------------------------------------------------------------------------ *)
@@ -739,16 +812,17 @@ Theorem lex_toks_wf s toks : lex s = Some toks -> toks_wf_from s 0 toks = true.
 Proof. intros H. apply tiles_wf. now apply lex_tiles. Qed.
 
 (* 8b. the ordering part of the tree half holds for every output of the parser: declarations are
-   consecutive, start at 0 and end inside the token vector *)
+   consecutive, start at 0, end inside the token vector, and the last one ends where the program's
+   range ends ([hi]) *)
 Local Open Scope nat_scope.
 
-Fixpoint decls_ordered_b (n : nat) (lo : nat) (l : list (gdecl * nat)) : bool :=
+Fixpoint decls_ordered_b (n : nat) (lo : nat) (l : list (gdecl * nat)) (hi : nat) : bool :=
   match l with
-  | [] => true
+  | [] => Nat.leb lo hi
   | (g, off) :: r =>
       let inf := gdecl_info g in
       Nat.leb lo (off + i_s inf) && Nat.leb (i_s inf) (i_e inf) && Nat.leb (off + i_e inf) n
-      && decls_ordered_b n (off + i_e inf) r
+      && decls_ordered_b n (off + i_e inf) r hi
   end.
 
 Fixpoint decls_names_b (toks : list token) (l : list (gdecl * nat)) : bool :=
@@ -757,19 +831,21 @@ Fixpoint decls_names_b (toks : list token) (l : list (gdecl * nat)) : bool :=
   | (g, off) :: r => name_is_ident toks off (gdecl_name g) && decls_names_b toks r
   end.
 
-Lemma decls_wf_split toks : forall l lo,
-  decls_wf_b toks lo l = decls_ordered_b (length toks) lo l && decls_names_b toks l.
+Lemma decls_wf_split toks hi : forall l lo,
+  decls_wf_b toks lo l hi = decls_ordered_b (length toks) lo l hi && decls_names_b toks l.
 Proof.
-  induction l as [|[g off] r IH]; intros lo; cbn [decls_wf_b decls_ordered_b decls_names_b]; [reflexivity|].
+  induction l as [|[g off] r IH]; intros lo; cbn [decls_wf_b decls_ordered_b decls_names_b];
+    [now rewrite andb_true_r|].
   rewrite IH. repeat destruct (Nat.leb _ _); cbn [andb]; try reflexivity.
   destruct (name_is_ident toks off (gdecl_name g)); cbn [andb]; [reflexivity|].
   now rewrite andb_false_r.
 Qed.
 
 Lemma spans_ordered toks n : forall l a b,
-  Spans toks a l b -> b <= n -> decls_ordered_b n a l = true.
+  Spans toks a l b -> b <= n -> decls_ordered_b n a l b = true.
 Proof.
-  induction l as [|[g off] r IH]; intros a b H Hb; cbn [Spans decls_ordered_b] in *; [reflexivity|].
+  induction l as [|[g off] r IH]; intros a b H Hb; cbn [Spans decls_ordered_b] in *;
+    [rewrite H; apply Nat.leb_refl|].
   destruct H as (-> & H0 & Hpos & _ & Hr). pose proof (Spans_le toks _ _ _ Hr) as Hle.
   rewrite (IH _ b Hr Hb), andb_true_r.
   rewrite !andb_true_iff, !Nat.leb_le. lia.
@@ -777,15 +853,29 @@ Qed.
 
 Theorem parse_decls_ordered toks prog :
   EofLast toks -> parse toks = Done prog ->
-  decls_ordered_b (length toks) 0 (pg_decls prog) = true.
+  decls_ordered_b (length toks) 0 (pg_decls prog) (i_e (pg_info prog)) = true.
 Proof.
   intros HE H. destruct (parse_sync toks prog HE H) as (Hsp & _ & Hsig).
   apply (spans_ordered toks _ _ 0 (i_e (pg_info prog)) Hsp).
   pose proof (Proofs.ParserComb.sig_at_ge toks (i_e (pg_info prog))). lia.
 Qed.
 
+(* ... and together with the trailing slice the declarations tile the token vector *)
+Lemma spans_cover toks : forall l a b j,
+  Spans toks a l b -> a <= j < b ->
+  exists i g off, nth_error l i = Some (g, off) /\
+                  off + i_s (gdecl_info g) <= j < off + i_e (gdecl_info g).
+Proof.
+  induction l as [|[g off] r IH]; intros a b j H Hj; cbn [Spans] in H; [lia|].
+  destruct H as (-> & H0 & Hpos & _ & Hr).
+  destruct (Nat.lt_ge_cases j (a + i_e (gdecl_info g))) as [Hlt|Hge].
+  - exists 0, g, a. split; [reflexivity | lia].
+  - destruct (IH _ b j Hr) as (i & g' & off' & Hi & Hj'); [lia|].
+    exists (S i), g', off'. now split.
+Qed.
+
 (* ------------------------------------------------------------------------------------------ *)
-(* 9. the classification part of C15 as a tree-directed specification, and its refutation        *)
+(* 9. the classification part of C15 as a tree-directed specification                            *)
 
 (* Every identifier occurrence of the syntax tree with the absolute index of its token (the last
    token of its range) and the class the property prescribes for it: decided by the syntactic ROLE
@@ -797,7 +887,10 @@ Local Open Scope nat_scope.
    (a) every keyword / number / comment of the text with its lexical class and
    (b) every identifier occurrence with the class of the entity it is bound to, the declaration
    modifier exactly on declared names.  Together with [semtok_coincide], [semtok_increasing] and
-   [semtok_lexical_class] (nothing else is reported, in text order) this pins the whole answer. *)
+   [semtok_lexical_class] (nothing else is reported, in text order) this pins the whole answer.
+   Part (a) is proved in section 10 ([new_doc_complete], for every document of AnalyzedSource::new
+   whose declaration names end with identifier tokens, with or without diagnostics); part (b) is
+   not proved (it needs the pipeline lemma relating the table to the tree). *)
 Definition semtok_full_statement : Prop :=
   forall t d data,
     new_doc t = Done d -> doc_errors d = Done [] -> semantic_tokens d = SOk data ->
@@ -805,29 +898,6 @@ Definition semtok_full_statement : Prop :=
                    In (tok_view (d_text d) (k, c)) (decode data)) /\
     (forall j k c, In (j, Some c) (doc_occs d) -> nth_error (d_toks d) j = Some k ->
                    In (tok_view (d_text d) (k, c)) (decode data)).
-
-(* `type t = int; proc p(t: t) { } proc main() { }` - no diagnostics; the second `t` of `t: t`
-   (token 10) is in type position, bound to the type t, and is reported as a parameter *)
-Definition refute_text : text :=
-  [116; 121; 112; 101; 32; 116; 32; 61; 32; 105; 110; 116; 59; 32; 112; 114; 111; 99; 32; 112; 40; 116; 58; 32; 116;
-   41; 32; 123; 32; 125; 32; 112; 114; 111; 99; 32; 109; 97; 105; 110; 40; 41; 32; 123; 32; 125]%N.
-
-Lemma semtok_full_statement_refuted : ~ semtok_full_statement.
-Proof.
-  intros H.
-  destruct (new_doc refute_text) as [d| |] eqn:Ed; [|vm_compute in Ed; discriminate|vm_compute in Ed; discriminate].
-  destruct (semantic_tokens d) as [data|s] eqn:Es.
-  2:{ vm_compute in Ed. injection Ed as <-. vm_compute in Es. discriminate. }
-  assert (He : doc_errors d = Done []) by (vm_compute in Ed; injection Ed as <-; vm_compute; reflexivity).
-  destruct (H refute_text d data Ed He Es) as [_ Hb].
-  assert (Hk : exists k, nth_error (d_toks d) 10 = Some k /\ In (10, Some (ty_type, mod_none)) (doc_occs d) /\
-                         ~ In (tok_view (d_text d) (k, (ty_type, mod_none))) (decode data)).
-  { vm_compute in Ed. injection Ed as <-. vm_compute in Es. injection Es as <-.
-    eexists. split; [vm_compute; reflexivity|]. split.
-    - vm_compute. tauto.
-    - vm_compute. intros X. repeat (destruct X as [X|X]; [discriminate X|]). exact X. }
-  destruct Hk as (k & Hn & Hin & Hnot). exact (Hnot (Hb 10 k _ Hin Hn)).
-Qed.
 
 (* ------------------------------------------------------------------------------------------ *)
 (* 10. documents produced by AnalyzedSource::new: the well-formedness predicate reduces to the   *)
@@ -849,16 +919,16 @@ Proof.
   intros [= H1 H2]. cbn [name_is_ident]. now rewrite H1, H2.
 Qed.
 
-Lemma decls_wf_b_shape toks : forall l1 l2 lo,
-  map shape l1 = map shape l2 -> decls_wf_b toks lo l1 = decls_wf_b toks lo l2.
+Lemma decls_wf_b_shape toks hi : forall l1 l2 lo,
+  map shape l1 = map shape l2 -> decls_wf_b toks lo l1 hi = decls_wf_b toks lo l2 hi.
 Proof.
   induction l1 as [|[g1 o1] r1 IH]; intros [|[g2 o2] r2] lo H; cbn [map] in H; try discriminate; [reflexivity|].
   injection H as Ho Hs1 He1 Hn Hr. subst o2.
   cbn [decls_wf_b]. rewrite Hs1, He1, (name_is_ident_shape toks o1 _ _ Hn). now rewrite (IH r2 _ Hr).
 Qed.
 
-Lemma decls_ordered_b_shape n : forall l1 l2 lo,
-  map shape l1 = map shape l2 -> decls_ordered_b n lo l1 = decls_ordered_b n lo l2.
+Lemma decls_ordered_b_shape n hi : forall l1 l2 lo,
+  map shape l1 = map shape l2 -> decls_ordered_b n lo l1 hi = decls_ordered_b n lo l2 hi.
 Proof.
   induction l1 as [|[g1 o1] r1 IH]; intros [|[g2 o2] r2] lo H; cbn [map] in H; try discriminate; [reflexivity|].
   injection H as Ho Hs1 He1 Hn Hr. subst o2.
@@ -917,16 +987,31 @@ Proof.
     + injection Eg as <- <-. reflexivity.
 Qed.
 
-Lemma build_res_shape p p1 table : build_res p = ROk (p1, table) -> map shape (pg_decls p1) = map shape (pg_decls p).
+Lemma build_res_shape p p1 table :
+  build_res p = ROk (p1, table) ->
+  map shape (pg_decls p1) = map shape (pg_decls p) /\ i_e (pg_info p1) = i_e (pg_info p).
 Proof.
   unfold build_res, build_program.
   destruct (build_gdecls (pg_decls p) initialized 0) as [[ds' t']|] eqn:E; cbn [rbind]; [|discriminate].
   apply build_gdecls_shape in E.
   destruct (lookup t' s_main) as [[te|main]|]; [discriminate | |].
   - destruct (pe_params main).
-    + intros [= <- <-]. exact E.
-    + destruct (to_error _ _); cbn [rbind]; [|discriminate]. intros [= <- <-]. exact E.
-  - intros [= <- <-]. exact E.
+    + intros [= <- <-]. split; [exact E | reflexivity].
+    + destruct (to_error _ _); cbn [rbind]; [|discriminate]. intros [= <- <-]. split; [exact E | reflexivity].
+  - intros [= <- <-]. split; [exact E | reflexivity].
+Qed.
+
+Lemma shape_nth : forall l1 l2 i g off,
+  map shape l1 = map shape l2 -> nth_error l1 i = Some (g, off) ->
+  exists g', nth_error l2 i = Some (g', off) /\
+             i_s (gdecl_info g') = i_s (gdecl_info g) /\ i_e (gdecl_info g') = i_e (gdecl_info g).
+Proof.
+  induction l1 as [|[g1 o1] r1 IH]; intros [|[g2 o2] r2] i g off H Hi; cbn [map] in H; try discriminate;
+    [now destruct i|].
+  injection H as Ho Hs1 He1 Hn Hr. cbn [fst snd] in *. subst o2.
+  destruct i as [|i]; cbn [nth_error] in *.
+  - injection Hi as <- <-. exists g2. repeat split; congruence.
+  - exact (IH r2 i g off Hr Hi).
 Qed.
 
 Lemma analyze_gdecl_shape table d d' : analyze_gdecl table d = ROk d' -> shape d' = shape d.
@@ -954,24 +1039,50 @@ Proof.
   exists body, {| tk := Eof; ts := (0 + blen s)%N; te := (0 + blen s)%N; terr := [] |}. repeat split; assumption.
 Qed.
 
-(* for a document produced by AnalyzedSource::new, the well-formedness predicate holds as soon as
-   the names of the declarations end with identifier tokens *)
-Theorem new_doc_wf t d :
-  new_doc t = Done d -> doc_wf_b d = decls_names_b (d_toks d) (pg_decls (d_ast d)).
+(* what the pipeline keeps of the parser's tree: offsets, ranges and name ranges of the
+   declarations, the end of the program's range; the parser's tree is synchronised ([Spans]) *)
+Lemma new_doc_parts t d :
+  new_doc t = Done d ->
+  d_text d = t /\ lex t = Some (d_toks d) /\
+  exists p, parse (d_toks d) = Done p /\
+            map shape (pg_decls (d_ast d)) = map shape (pg_decls p) /\
+            i_e (pg_info (d_ast d)) = i_e (pg_info p).
 Proof.
   unfold new_doc, new_doc_res. destruct (lex t) as [toks|] eqn:El; [|discriminate].
   destruct (parse toks) as [p| |] eqn:Ep; try discriminate.
   destruct (build_res p) as [[p1 table]|] eqn:Eb; [|discriminate].
   destruct (analyze_res p1 table) as [p2|] eqn:Ea; [|discriminate].
-  cbn [ores_outcome]. intros [= <-]. unfold doc_wf_b; cbn [d_text d_toks d_ast].
-  rewrite (lex_toks_wf t toks El), decls_wf_split. cbn [andb].
-  assert (Hs : map shape (pg_decls p2) = map shape (pg_decls p)).
-  { unfold analyze_res in Ea. destruct (analyze_gdecls table (pg_decls p1)) as [ds'|] eqn:E; cbn [rbind] in Ea; [|discriminate].
-    injection Ea as <-. cbn [pg_decls]. rewrite (analyze_gdecls_shape _ _ _ E). exact (build_res_shape _ _ _ Eb). }
-  pose proof (parse_decls_ordered toks p (lex_eof_last t toks El) Ep) as Ho.
-  assert (Ho2 : decls_ordered_b (length toks) 0 (pg_decls p2) = true).
-  { rewrite (decls_ordered_b_shape _ _ _ 0 Hs). exact Ho. }
-  now rewrite Ho2.
+  cbn [ores_outcome]. intros [= <-]. cbn [d_text d_toks d_ast].
+  split; [reflexivity|]. split; [reflexivity|]. exists p. split; [exact Ep|].
+  destruct (build_res_shape _ _ _ Eb) as [Hb He].
+  unfold analyze_res in Ea. destruct (analyze_gdecls table (pg_decls p1)) as [ds'|] eqn:E; cbn [rbind] in Ea; [|discriminate].
+  injection Ea as <-. cbn [pg_decls pg_info]. split; [|exact He].
+  rewrite (analyze_gdecls_shape _ _ _ E). exact Hb.
+Qed.
+
+(* for a document produced by AnalyzedSource::new, the well-formedness predicate holds as soon as
+   the names of the declarations end with identifier tokens *)
+Theorem new_doc_wf t d :
+  new_doc t = Done d -> doc_wf_b d = decls_names_b (d_toks d) (pg_decls (d_ast d)).
+Proof.
+  intros Hn. destruct (new_doc_parts t d Hn) as (Ht & El & p & Ep & Hs & He).
+  unfold doc_wf_b. rewrite Ht, (lex_toks_wf t _ El), decls_wf_split. cbn [andb].
+  pose proof (parse_decls_ordered _ p (lex_eof_last t _ El) Ep) as Ho.
+  rewrite (decls_ordered_b_shape _ _ _ _ 0 Hs), He, Ho. reflexivity.
+Qed.
+
+(* ... and the declarations together with the trailing slice tile the token vector: the handler
+   walks over every token of the document *)
+Theorem new_doc_covered t d :
+  new_doc t = Done d -> forall j, covered d j.
+Proof.
+  intros Hn j. destruct (new_doc_parts t d Hn) as (Ht & El & p & Ep & Hs & He).
+  destruct (parse_sync _ p (lex_eof_last t _ El) Ep) as (Hsp & _ & _).
+  destruct (Nat.lt_ge_cases j (i_e (pg_info p))) as [Hlt|Hge].
+  - left. destruct (spans_cover _ _ 0 _ j Hsp) as (i & g & off & Hi & Hj); [lia|].
+    destruct (shape_nth _ _ i g off (eq_sym Hs) Hi) as (g' & Hi' & E1 & E2).
+    exists i, g', off. rewrite E1, E2. now split.
+  - right. unfold trailing_start. rewrite He. pose proof (Nat.le_min_l (i_e (pg_info p)) (length (d_toks d))). lia.
 Qed.
 
 (* everything together for the documents the server actually holds *)
@@ -982,17 +1093,30 @@ Theorem new_doc_stream t d :
     decode data = map (tok_view t) (emitted d) /\
     Subseq (map fst (emitted d)) (d_toks d) /\
     StronglySorted (fun a b => pos_lt (at_pos a) (at_pos b)) (decode data) /\
-    Forall lex_ok (emitted d).
+    Forall lex_ok (emitted d) /\
+    (forall j k c, nth_error (d_toks d) j = Some k -> map_class (tk k) = Some c -> In (k, c) (emitted d)).
 Proof.
   intros Hn Hnames. pose proof (new_doc_wf t d Hn) as Hwf. rewrite Hnames in Hwf.
-  assert (Ht : d_text d = t).
-  { unfold new_doc, new_doc_res in Hn. destruct (lex t) as [tk0|]; [|discriminate].
-    destruct (parse tk0) as [p0| |]; try discriminate.
-    destruct (build_res p0) as [[p1 tb]|]; [|discriminate]. destruct (analyze_res p1 tb); [|discriminate].
-    cbn in Hn. now injection Hn as <-. }
+  destruct (new_doc_parts t d Hn) as (Ht & _).
   destruct (semtok_no_panic d Hwf) as [data Hd]. exists data.
   destruct (semtok_coincide d data Hwf Hd) as [H1 H2]. rewrite Ht in H1.
   repeat split; try assumption.
   - exact (semtok_increasing d data Hwf Hd).
   - exact (semtok_lexical_class d Hwf).
+  - intros j k c Hk Hc. exact (semtok_lexical_complete d j k c Hwf (new_doc_covered t d Hn j) Hk Hc).
+Qed.
+
+(* part (a) of [semtok_full_statement], for every document of AnalyzedSource::new (with or without
+   diagnostics): every keyword / number / comment token of the document - wherever it stands, also
+   behind the last declaration - is in the decoded answer with its lexical class *)
+Theorem new_doc_complete t d data :
+  new_doc t = Done d -> decls_names_b (d_toks d) (pg_decls (d_ast d)) = true ->
+  semantic_tokens d = SOk data ->
+  forall j k c, nth_error (d_toks d) j = Some k -> map_class (tk k) = Some c ->
+                In (tok_view (d_text d) (k, c)) (decode data).
+Proof.
+  intros Hn Hnames Hd j k c Hk Hc.
+  pose proof (new_doc_wf t d Hn) as Hwf. rewrite Hnames in Hwf.
+  destruct (semtok_coincide d data Hwf Hd) as [-> _].
+  apply in_map. exact (semtok_lexical_complete d j k c Hwf (new_doc_covered t d Hn j) Hk Hc).
 Qed.
